@@ -14,7 +14,7 @@ LEVEL = "exploration"
 RULE = (
     "Source sets in direct normal form (>= 6 decimals) whose shapes come from a shared library placed under drawn affines: identity, "
     "translation (small / far), rotation, reflection, uniform, non-uniform and large scale, shear, and near-misses (an exact copy with one "
-    "coordinate moved by 0.5x, 1x, 2x the default tolerance), solid and gradient fills (both unit systems, gradientTransform, focal point) "
+    "coordinate moved by 0.5x, 1x, 2x the default tolerance), a 3-130x smaller copy whose gradient overflows int16 when mapped back to the donor, solid and gradient fills (both unit systems, gradientTransform, focal point) "
     "x reuse_tolerance in {0, 0.01, 0.1, 0.5, 2} x {glyf_colr_1, glyf_colr_0, picosvg}. Metamorphic oracle: the same sources are built with "
     "tolerance t and with -1; both builds must succeed (an error with t that the -1 build does not raise is a violation); for every source the "
     "display trees of the two fonts must be layer-for-layer equivalent: same structure, outlines within t (as a distance) plus the quantisation "
@@ -35,7 +35,7 @@ def setup_worker():
 def cases(tier):
     main = c01.vector_case(FORMATS, tier, max_sources=4 if tier == "quick" else 8, lib_always=True, lib_prob=0.85, p_grad=0.35,
                            tolerances=TOLS, allow_groups=True)
-    return st.one_of(main, main, main, c01.grid_case(FORMATS, tier, tolerances=[0.1, 0.5, 0.01]))
+    return st.one_of(main, main, main, main, c01.grid_case(FORMATS, tier, tolerances=[0.1, 0.5, 0.01]), c01.far_reuse_case(FORMATS, tier))
 
 
 shrink = c01.shrink
